@@ -175,6 +175,11 @@ Fixpoint props_class (u : str) (ops : list oop) : Z :=
       | Some x, Some y => if res_eqb x y then props_class u ops' else classify m (RStrObj u) a
       | _, _ => props_class u ops'
       end
+  | OCallPrim m a :: ops' =>
+      match call_model m (RLit u) a, call_spec m (RLit u) a with
+      | Some x, Some y => if res_eqb x y then props_class u ops' else classify m (RLit u) a
+      | _, _ => props_class u ops'
+      end
   | _ :: ops' => props_class u ops'
   end.
 
